@@ -4,21 +4,30 @@ from props import corelib as K
 
 ID = 'C15'
 HARNESS = 'c15'
-COQ_IMPORTS = 'From VRP Require Import Base.Tac Model.CostOrder Model.Reduce.'
-MODEL_TARGETS = ['theories/Model/Reduce.vo']
+COQ_IMPORTS = 'From VRP Require Import Base.Tac Model.CostOrder Model.Reduce Model.Core Model.Reduce2.'
+MODEL_TARGETS = ['theories/Model/Reduce.vo', 'theories/Model/Reduce2.vo']
 MODEL_NEEDS_IMPL = True
 SHARD = 60
 SIZES = {'quick': 150, 'thorough': 2500, 'search': 800}
 RULE = ('cases: 1-3 existing routes (tours of 0-4 activities; one case in three: 4-7 short tours) plus 0-2 free vehicles with individual costs/capacities, 2-4 candidate '
-        'single jobs, metric and non-metric matrices, waiting-heavy tours; goal [unassigned, tours, cost]. For each case the real '
-        'evaluate_all runs in rayon pools of 1,2,3,4,5,8 threads (3 repetitions each), the sequential fold and all two-chunk splits are '
-        'computed with the real step/reducer, and every item is evaluated alone. non-trivial = distinct cases with >= 2 successful items '
+        'single jobs, metric and non-metric matrices, waiting-heavy tours; goal [unassigned, tours, cost]; one case in nine has only failing pairs, one in six '
+        'has candidates that already sit in `unassigned` with a code (skip shortcut). For each case the real '
+        'evaluate_all runs in rayon pools of 1,2,3,4,5,8 threads (3 repetitions each); the sequential fold, all two-chunk splits and six further schedules '
+        '(leaves of 1, 2, 3 pairs left- and right-nested, one leaf per route) are computed with the real step/reducer; every pair is evaluated alone and '
+        'classified (skip / route-level violation / evaluated, failure fields); both branches of evaluate_and_collect_all are computed by a twin (real step + real '
+        'parallel_collect, pools of 1 and 3) and, with at most one free vehicle, the real pub(crate) function is reached through RecreateWithSkipBest(2,2) and the '
+        'insertion observer (first insertion = entry 2 of the sorted collected vector). non-trivial = distinct cases with >= 2 successful pairs '
         'of different cost. Every 19th case is a whole Solver run (op layouts): 12-20 unit-demand jobs, vehicles of capacity 2-3 (so the '
         'solution has 4+ tours and the decomposition search forms several groups of tours), 60-200 generations, solved under 3-4 of the layouts '
         '1x1, 1x4, 2x1, 2x2, 3x2, 4x1, 8x1, default; on every returned solution: each job exactly once (served or unassigned), nothing '
-        'foreign, no vehicle twice, no tour above capacity.')
-TRUSTED = ["rayon's fold/reduce only produces reductions over contiguous chunks in order (its documented contract); real thread interleavings are sampled, not enumerated"]
-ASSUMPTIONS = ['costs compared as integer vectors (integer data)']
+        'foreign, no vehicle twice, no tour above capacity. Every 19th case is op choose (16 generated result pairs through the real choose_best_result) and '
+        'every 19th op decompose (the real DecomposeSearch around an identity inner search on 4-9 tours + 0-2 unassigned jobs under 3-4 layouts: every tour '
+        'must come back exactly once).')
+TRUSTED = ["rayon's fold/reduce/collect only produce reductions over contiguous chunks in order and an order-preserving collect (documented contract); real thread interleavings are sampled, not enumerated",
+           'ThreadPool::execute = rayon install returns the closure\'s value (modelled as such)',
+           'the twin of evaluate_and_collect_all in the harness (the real function is pub(crate)); the real one is reached only through RecreateWithSkipBest']
+ASSUMPTIONS = ['costs compared as integer vectors (integer data)',
+               'the concrete lower-bound theorem is for the single-layer distance objective of Model/Core.v (single jobs, time-independent routing)']
 
 
 LAYOUTS = [[1, 1], [1, 4], [2, 1], [2, 2], [3, 2], [4, 1], [8, 1], None]
@@ -43,11 +52,49 @@ def gen_layouts_case(rng):
             'layouts': layouts, 'generations': rng.choice([60, 120, 200])}
 
 
+def gen_result(rng):
+    """one InsertionResult for op choose: a success (cost vector of 1-4 small components, so ties and zero-padded comparisons
+    occur) or a failure (code -1 = unknown, 1, 2, 5; stopped; job or none)"""
+    if rng.chance(3, 5):
+        return {'cost': [rng.range(-2, 3) for _ in range(rng.range(1, 4))]}
+    return {'fail': [rng.choice([-1, -1, 1, 2, 5]), rng.chance(1, 2), rng.choice([None, 3, 4])]}
+
+
+def gen_choose_case(rng):
+    return {'op': 'choose', 'pairs': [[gen_result(rng), gen_result(rng)] for _ in range(16)]}
+
+
+def gen_decompose_case(rng):
+    """a solution with 4-9 short tours (1-2 unconstrained jobs each) and 0-2 unassigned jobs, handed to the real DecomposeSearch
+    (group size range (2, 2..4), identity inner search) under 3-4 pool layouts"""
+    w = K.gen_world(rng, nmax=8, metric=True)
+    tours = []
+    jid = 1
+    for r in range(rng.range(4, 9)):
+        tour = []
+        for _ in range(rng.range(1, 2)):
+            tour.append({'job': jid, 'loc': rng.range(1, w['n'] - 1), 'svc': 0, 'tws': 0, 'twe': 'inf', 'dem': [0, 0, 1, 0]})
+            jid += 1
+        tours.append({'veh': {'start': 0, 'end': 0, 'shift_start': 0, 'shift_end': 'inf', 'cap': 5,
+                              'costs': [rng.range(0, 20), 1, rng.range(0, 2), 0, 0]}, 'tour': tour})
+    unassigned = [{'id': 200 + i, 'places': [{'loc': rng.range(1, w['n'] - 1), 'svc': 0, 'tws': [[0, 'inf']]}], 'dem': [0, 0, 50, 0]}
+                  for i in range(rng.range(0, 2))]
+    layouts = [LAYOUTS[i] for i in sorted(set([0, 2] + [rng.below(len(LAYOUTS)) for _ in range(2)]))]
+    return {'op': 'decompose', 'n': w['n'], 'dur': w['dur'], 'dist': w['dist'], 'tours': tours, 'unassigned': unassigned,
+            'layouts': layouts, 'range': [2, rng.range(2, 4)], 'repeat': rng.range(1, 2)}
+
+
 def generate(rng, tier, n):
     cases = []
     for k in range(n):
         if k % 19 == 7:
             cases.append(gen_layouts_case(rng))
+            continue
+        if k % 19 == 3:
+            cases.append(gen_choose_case(rng))
+            continue
+        if k % 19 == 12:
+            cases.append(gen_decompose_case(rng))
             continue
         w = K.gen_world(rng, metric=rng.chance(1, 2))
         base = {x: w[x] for x in ('n', 'dur', 'dist')}
@@ -87,7 +134,15 @@ def generate(rng, tier, n):
                 j['dem'] = [0, 0, rng.range(21, 30), 0]
             routes[-1]['veh'] = dict(routes[-1]['veh'], cap=80)
             free = []
+        if rng.chance(1, 9):
+            # nothing can be inserted (every candidate is heavier than every vehicle): the reduction only sees failures,
+            # which exercises the bookkeeping of the failure that is kept
+            for j in jobs:
+                j['dem'] = [0, 0, rng.range(200, 300), 0]
         c = dict(base, routes=routes, free=free, jobs=jobs, goal='unassigned+tours+cost', pools=[1, 2, 3, 4, 5, 8], reps=3)
+        if routes and rng.chance(1, 6):
+            # one or two candidates already sit in `unassigned` with a concrete code: the evaluator skips them on unmodified tours
+            c['unassigned_codes'] = [[q, rng.choice([1, 2, 7])] for q in range(len(jobs)) if rng.chance(1, 2)][:2]
         if rng.chance(1, 2):
             # all cost rates scaled by 2^-30 (exact in f64; the harness scales reported costs back): near-equal float costs, so a
             # comparison that tolerates small differences stops being a total order and the reduction becomes split-dependent
@@ -134,13 +189,45 @@ def layouts_oracle(c, impl):
     return v
 
 
+def jnum(s):
+    """'j90' -> 90"""
+    return int(str(s)[1:])
+
+
+def g_fail(f):
+    code, stopped, job = f
+    return '(mkFail %s %s %s)' % (z(code), 'true' if stopped else 'false', 'None' if job is None else '(Some %s)' % z(jnum(job) if isinstance(job, str) else job))
+
+
+def g_cell(i, k):
+    """one (route, job) pair of the grid as a Gallina cell; a success carries its row-major position as payload"""
+    if i['kind'] == 'skip':
+        return 'CSkip'
+    if i['kind'] == 'viol':
+        return '(CRouteViol %s %s)' % (z(i['fail'][0]), z(jnum(i['fail'][2])))
+    full = '(RSuccess (%s, %s))' % (zlist(i['full']), z(k)) if i['full'] is not None else '(RFailure %s)' % g_fail(i['fail'])
+    return '(v_table %s %s)' % (zlist(i['rc']), full)
+
+
+def g_res(r):
+    if 'cost' in r and r['cost'] is not None:
+        return '(RSuccess (%s, 0))' % zlist(r['cost'])
+    return '(RFailure %s)' % g_fail(r['fail'])
+
+
 def model_term(c, impl):
-    if is_layouts(c):
-        return None            # whole-solver runs: the property predicate is evaluated on the returned solutions only
+    if is_layouts(c) or c.get('op') == 'decompose':
+        return None            # whole-solver / whole-operator runs: the property predicate is evaluated on the returned solutions only
+    if c.get('op') == 'choose':
+        return '[%s]' % '; '.join('run_choose %s %s' % (g_res(l), g_res(r)) for l, r in c['pairs'])
     if 'panic' in impl:
-        return 'run_c15 []'
+        return '(run_c15 [], run_grid [])'
     items = ['(mk_item %s %s)' % (g_opt(i['full']), zlist(i['rc'])) for i in impl['items']]
-    return 'run_c15 [%s]' % '; '.join(items)
+    nj = impl['n_jobs']
+    rows = []
+    for r in range(impl['n_routes']):
+        rows.append('[%s]' % '; '.join(g_cell(impl['items'][r * nj + q], r * nj + q) for q in range(nj)))
+    return '(run_c15 [%s], run_grid [%s])' % ('; '.join(items), '; '.join(rows))
 
 
 def m_opt(v):
@@ -154,23 +241,128 @@ def vkey(v):
     return tuple(v) + (0,) * (8 - len(v))
 
 
+def same_cost(a, b):
+    """cost vectors are compared after zero padding (InsertionCost's own equality); None = failure"""
+    if a is None or b is None:
+        return a is None and b is None
+    return vkey(a) == vkey(b)
+
+
+def has_neg(impl):
+    return any(i['full'] is not None and vkey(i['full']) < vkey(i['rc']) for i in impl['items'])
+
+
+def skip_best_expected(c, impl, pick_route, pick_job):
+    """cost the first insertion of RecreateWithSkipBest(2,2) must have according to the model: None = no statement"""
+    if impl.get('skip_best') in (None, {}) or has_neg(impl):
+        return None                      # with a negative estimate the collected entries depend on the (shuffled) order
+    if impl['n_jobs'] == 1 or impl['n_routes'] == 0:
+        return ('min',)
+    pick = pick_job if impl['n_jobs'] > impl['n_solution_routes'] else pick_route
+    cost = m_opt(pick[0][0]) if pick else None
+    # a picked failure inserts nothing at the first step (the observer would see a later step): no statement
+    return ('cost', cost) if cost is not None else None
+
+
+def observed_first(c, impl):
+    f = impl['skip_best']['first']
+    if f is None:
+        return None
+    r = impl['route_ids'].index(f['vehicle'])
+    q = ['j%d' % j['id'] for j in c['jobs']].index(f['job'])
+    return impl['items'][r * impl['n_jobs'] + q]['full']
+
+
 def compare(c, impl, model):
     if 'panic' in impl:
         return 'implementation panicked: %s' % impl['panic']
-    seq, splits = model
+    if c.get('op') == 'choose':
+        for k, (m, got) in enumerate(zip(model, impl['chosen'])):
+            if not same_cost(m_opt(m[0]), got['cost']):
+                return 'choose_best_result on pair %d %s: impl %s model %s' % (k, c['pairs'][k], got, m)
+        return None
+    seq, splits, grid = model
     if m_opt(seq) != impl['seq']:
         return 'sequential fold: impl %s model %s' % (impl['seq'], m_opt(seq))
     ms = [m_opt(s) for s in splits]
     if ms != impl['splits']:
         return 'two-chunk splits: impl %s model %s' % (impl['splits'], ms)
+    # second model (Reduce2.run_grid); nested pairs print flattened: (spec_cost, spec_fail, nested, trees, rest)
+    spec, _spec_fail, nested, trees, rest = grid
+    red_route, _rr_fail, red_job, vecs, picks = rest
+    fulls = [i['full'] for i in impl['items'] if i['full'] is not None]
+    best = min(fulls, key=vkey) if fulls else None
+    if not same_cost(m_opt(spec), best):
+        return 'grid specification (reduction of the individually evaluated pairs): model %s, minimum of the pairs %s' % (m_opt(spec), best)
+    if not same_cost(m_opt(nested[0]), impl['seq']):
+        return 'nested double loop: impl %s model %s' % (impl['seq'], m_opt(nested[0]))
+    names = ['one leaf', 'leaves of 1 (left)', 'leaves of 1 (right)', 'leaves of 2 (left)', 'leaves of 3 (right)', 'one leaf per route']
+    for nm, m, got in zip(names, trees, impl['trees']):
+        if not same_cost(m_opt(m[0]), got['cost']):
+            return 'evaluate_all schedule "%s": impl %s model %s' % (nm, got['cost'], m_opt(m[0]))
+    for run in impl['collected']:
+        for nm, mv, gv in (('per route', vecs[0], run['by_route']), ('per job', vecs[1], run['by_job'])):
+            if len(mv) != len(gv) or any(not same_cost(m_opt(a[0]), b['cost']) for a, b in zip(mv, gv)):
+                return 'evaluate_and_collect_all (%s, %d threads): impl %s model %s' % (nm, run['threads'], [b['cost'] for b in gv], [m_opt(a[0]) for a in mv])
+        if not same_cost(m_opt(red_route), run['red_route']['cost']) or not same_cost(m_opt(red_job[0]), run['red_job']['cost']):
+            return 'reduced evaluate_and_collect_all (%d threads): impl %s / %s model %s / %s' % (
+                run['threads'], run['red_route']['cost'], run['red_job']['cost'], m_opt(red_route), m_opt(red_job[0]))
+    exp = skip_best_expected(c, impl, picks[0], picks[1])
+    if exp is not None:
+        got = observed_first(c, impl)
+        want = best if exp[0] == 'min' else exp[1]
+        if not same_cost(got, want):
+            return 'RecreateWithSkipBest(2,2), first insertion %s: cost %s, model (entry 2 of the sorted collected vector) %s' % (
+                impl['skip_best']['first'], got, want)
     return None
+
+
+def choose_oracle(c, impl):
+    """the property on choose_best_result itself: a success beats a failure, of two successes the cost is the smaller one"""
+    v = []
+    for (l, r), got in zip(c['pairs'], impl['chosen']):
+        costs = [x['cost'] for x in (l, r) if 'cost' in x]
+        if costs and got['cost'] is None:
+            v.append({'class': 'choose-failure-over-success', 'what': 'choose_best_result(%s, %s) returned a failure' % (l, r)})
+        elif costs and vkey(got['cost']) != vkey(min(costs, key=vkey)):
+            v.append({'class': 'choose-not-minimal', 'what': 'choose_best_result(%s, %s) returned cost %s' % (l, r, got['cost'])})
+        elif not costs and got['cost'] is not None:
+            v.append({'class': 'choose-success-from-failures', 'what': 'choose_best_result(%s, %s) returned a success' % (l, r)})
+    return v[:3]
+
+
+def decompose_oracle(c, impl):
+    """identity inner search: the decomposed-and-merged solution holds every tour of the input exactly once, every job once"""
+    v = []
+    for r in impl['decomposed']:
+        lay = 'default' if r['layout'] is None else '%dx%d' % tuple(r['layout'])
+        before = sorted((t['vehicle'], tuple(t['jobs'])) for t in r['before']['routes'])
+        after = sorted((t['vehicle'], tuple(t['jobs'])) for t in r['after']['routes'])
+        lost = [t for t in before if t not in after]
+        used = [t[0] for t in after]
+        if len(set(used)) != len(used):
+            v.append({'class': 'tour-duplicated-by-decomposition', 'what': 'layout %s: vehicles %s' % (lay, used)})
+        elif lost:
+            v.append({'class': 'tour-lost-by-decomposition', 'what': 'layout %s: %d of %d tours missing after decompose+merge: %s' % (lay, len(lost), len(before), lost[:4])})
+        elif before != after:
+            v.append({'class': 'tour-changed-by-decomposition', 'what': 'layout %s: before %s after %s' % (lay, before, after)})
+        ja = sorted([j for t in r['after']['routes'] for j in t['jobs']] + list(r['after']['unassigned']))
+        jb = sorted([j for t in r['before']['routes'] for j in t['jobs']] + list(r['before']['unassigned']))
+        if ja != jb and not lost:
+            v.append({'class': 'job-accounting-changed-by-decomposition', 'what': 'layout %s: jobs before %s after %s' % (lay, jb, ja)})
+    return v
 
 
 def oracle(c, impl):
     if 'panic' in impl:
-        return [{'class': 'panic', 'what': impl['panic']}]
+        zero = any(l is not None and l[0] == 0 for l in c.get('layouts', []))
+        return [{'class': 'solver-panic-with-zero-thread-pools' if zero else 'panic', 'what': impl['panic']}]
     if is_layouts(c):
         return layouts_oracle(c, impl)
+    if c.get('op') == 'choose':
+        return choose_oracle(c, impl)
+    if c.get('op') == 'decompose':
+        return decompose_oracle(c, impl)
     fulls =[i['full'] for i in impl['items'] if i['full'] is not None]
     best = min(fulls, key=vkey) if fulls else None
     neg = any(i['full'] is not None and vkey(i['full']) < vkey(i['rc']) for i in impl['items'])
@@ -185,12 +377,53 @@ def oracle(c, impl):
     pb = [p for p in impl['par'] if bad(p['cost'])]
     if pb:
         v.append({'class': 'parallel-not-minimal' + suffix, 'what': 'evaluate_all with %s threads gave %s, minimal cost %s' % (pb[0]['threads'], pb[0]['cost'], best)})
+    tb = [k for k, t in enumerate(impl.get('trees', [])) if bad(t['cost'])]
+    if tb and not any(x['class'].startswith('split-dependent') or x['class'].startswith('sequential-not-minimal') for x in v):
+        v.append({'class': 'split-dependent' + suffix, 'what': 'schedule %d of the real step/reducer gives %s, minimal cost %s' % (tb[0], impl['trees'][tb[0]]['cost'], best)})
+    for run in impl.get('collected', []):
+        cb = [nm for nm in ('red_route', 'red_job') if bad(run[nm]['cost'])]
+        if cb and not any(x['class'].startswith('sequential-not-minimal') for x in v):
+            # every collected entry is a sequential fold over one row / one column of the grid
+            v.append({'class': 'sequential-not-minimal' + suffix,
+                      'what': 'minimum of the collected vector (%s, %d threads) is %s, minimal cost %s' % (cb[0], run['threads'], run[cb[0]]['cost'], best)})
+            break
+    if impl.get('skip_best') is not None and not neg and impl['n_jobs'] >= 2 and impl['n_routes'] >= 1:
+        # independent of the model: the first insertion of RecreateWithSkipBest(2,2) is the SECOND cheapest of the per-job
+        # (more candidates than tours) or per-tour minima
+        nj, nr = impl['n_jobs'], impl['n_routes']
+        cell = lambda r, q: impl['items'][r * nj + q]['full']
+        if nj > impl['n_solution_routes']:
+            groups = [[cell(r, q) for r in range(nr)] for q in range(nj)]
+        else:
+            groups = [[cell(r, q) for q in range(nj)] for r in range(nr)]
+        mins = sorted((min((x for x in g if x is not None), key=vkey) for g in groups if any(x is not None for x in g)), key=vkey)
+        idx = min(2, len(groups)) - 1
+        want = mins[idx] if idx < len(mins) else None
+        got = observed_first(c, impl)
+        # entry 2 is a failure (fewer than two groups with a success): nothing is inserted at the first step, no statement
+        if want is not None and (got is None or vkey(got) != vkey(want)):
+            v.append({'class': 'skip-best-pick-not-second-best', 'what': 'first insertion %s has cost %s, second best of the collected minima is %s (minima %s)' % (
+                impl['skip_best']['first'], got, want, mins)})
     return v
+
+
+def kept_failure_py(impl):
+    """the failure Model/Reduce2.v :: kept_failure predicts: the last one with a concrete code in row-major order"""
+    kept = [-1, False, None]
+    for i in impl['items']:
+        f = i['fail']
+        if f is not None and f[0] != -1:
+            kept = f
+    return kept
 
 
 def nontrivial_key(c, impl):
     if 'panic' in impl:
         return None
+    if c.get('op') == 'choose':
+        return ('choose', str(c['pairs']))
+    if c.get('op') == 'decompose':
+        return ('decompose', str(c['tours']), str(c['layouts'])) if len(c['tours']) >= 4 else None
     if is_layouts(c):
         many = any('routes' in r and len(r['routes']) >= 4 for r in impl['layouts'])
         return ('layouts', str(c['jobs']), str(c['layouts'])) if many else None
@@ -199,6 +432,22 @@ def nontrivial_key(c, impl):
 
 
 def classify(c, impl):
+    if c.get('op') == 'choose':
+        labs = ['op=choose']
+        if 'panic' not in impl:
+            for (l, r), got in zip(c['pairs'], impl['chosen']):
+                kind = ('S' if 'cost' in l else 'F') + ('S' if 'cost' in r else 'F')
+                labs.append('pair=' + kind)
+                if kind == 'SS' and vkey(l['cost']) == vkey(r['cost']):
+                    labs.append('tie_keeps=%s' % ('left' if got['side'] == 'j1' else 'right'))
+                if kind == 'FF':
+                    labs.append('failure_kept=%s' % ('right' if got['fail'] == [r['fail'][0], r['fail'][1], None if r['fail'][2] is None else 'j%d' % r['fail'][2]] else 'left'))
+        return sorted(set(labs))
+    if c.get('op') == 'decompose':
+        labs = ['op=decompose', 'tours=%d' % len(c['tours']), 'unassigned=%d' % len(c['unassigned'])]
+        for l in c['layouts']:
+            labs.append('layout=' + ('default' if l is None else '%dx%d' % tuple(l)))
+        return labs
     if is_layouts(c):
         labs = ['op=layouts']
         if 'panic' not in impl:
@@ -213,17 +462,40 @@ def classify(c, impl):
         labs.append('items=%d' % len(impl['items']))
         labs.append('successes=%d' % sum(1 for i in impl['items'] if i['full'] is not None))
         labs.append('negative_estimate=%s' % any(i['full'] is not None and vkey(i['full']) < vkey(i['rc']) for i in impl['items']))
+        for kd in sorted(set(i['kind'] for i in impl['items'])):
+            labs.append('pair_kind=' + kd)
+        labs.append('collect_branch=%s' % ('per_job' if impl['n_jobs'] > impl['n_solution_routes'] else 'per_route'))
+        if impl.get('skip_best') is not None:
+            labs.append('skip_best_first_insertion=%s' % ('none' if impl['skip_best']['first'] is None else 'observed'))
+        if impl['items'] and all(i['full'] is None for i in impl['items']):
+            # observation (not part of the property): the failure the real evaluate_all keeps vs. the model's kept_failure
+            want = kept_failure_py(impl)
+            same = all(p['fail'] == want for p in impl['par']) and all(t['fail'] == want for t in impl['trees'])
+            labs.append('all_fail_kept_failure_%s' % ('as_modelled' if same else 'DIFFERS_from_model'))
     return labs
 
 
-MANIFEST_TEXT = ('Machine-checked proof (Coq): for every strict weak order on costs and every reduction tree over contiguous chunks (everything '
-                 "rayon's fold/reduce can produce) the modelled fold step (eval_job_insertion_in_route with its prune-by-route-cost shortcut) and "
-                 'reducer (choose_best_result) return a minimal-cost result whenever route-level estimates are lower bounds of full costs; hence all '
-                 'schedules agree with the sequential scan. The model is tied to /repo on every run: the real step and reducer are folded sequentially '
-                 'and over every two-chunk split and must agree with the model item by item; the real evaluate_all runs in rayon pools of 1,2,3,5,8 '
-                 'threads and its cost must equal the minimum over the individually evaluated items.')
-MANIFEST_NOTE = ('Trusted: Coq kernel+vm_compute; harness; rayon contract (contiguous ordered chunks). Not exhibited by the model: real thread '
-                 'interleavings, memory visibility, thread-local RNG (only sampled). The clause "full solver runs remain valid under every parallelism '
-                 'configuration" is exercised by the end-to-end oracle of C01 under several Parallelism layouts (small problems, full validity '
-                 'checker in Coq) and by the layouts stream of this check (many-tour problems, job accounting and capacity only).')
-MANIFEST_TECHNIQUE = 'Coq proof over all reduction trees + vm_compute differential correspondence + multi-pool sampling'
+MANIFEST_TEXT = ('Machine-checked proof (Coq, 42 theorems): (1) for every strict weak order on costs and every reduction tree over contiguous chunks '
+                 "(everything rayon's fold/reduce can produce) the modelled fold step (eval_job_insertion_in_route with its skip, route-violation, "
+                 'prune-by-route-cost and best_known_cost exits) and reducer (choose_best_result as written, with its failure bookkeeping) over the row-major '
+                 'cartesian product of routes and jobs return EXACTLY the left-to-right reduction of the individually evaluated pairs whenever route-level '
+                 'estimates are lower bounds of full costs: a minimal-cost success over all pairs = the nested sequential double loop; a failure iff no pair '
+                 'succeeds, and then a determined failure; both branches of evaluate_and_collect_all reduce to the same cost and their collected vector (hence '
+                 "RecreateWithSkipBest's pick) does not depend on the chunking; choose_best_result is associative, has make_failure as right unit, is commutative "
+                 'up to cost. (2) The lower-bound hypothesis is proved for the concrete evaluator model (Model/Core.v, distance objective, non-negative matrix with '
+                 'triangle inequality), including that the scan started from best_known_cost behaves as the abstract step assumes; the complementary witness '
+                 '(non-metric matrix, -80 vs -98) is finding C15-F1. (3) Pool layout: results of search_many are op(solution i) for every pool count >= 1 and '
+                 'without pools; the decomposition groups partition the route indices for all proximity lists and group sizes, and refine+merge returns every '
+                 'route once. The model is tied to /repo on every run: real step, reducer and evaluate_all under pools of 1,2,3,4,5,8 threads, under all two-chunk splits and six further '
+                 'explicit schedules, pair kinds and failure fields, the collected vectors of both branches, the first insertion of RecreateWithSkipBest, '
+                 'choose_best_result on generated pairs, and the real DecomposeSearch under pool layouts.')
+MANIFEST_NOTE = ('Trusted: Coq kernel+vm_compute; harness; rayon contract (contiguous ordered chunks, order-preserving collect, install returns the value). Not '
+                 'exhibited by the model: real thread interleavings, memory visibility, thread-local RNG (only sampled). evaluate_and_collect_all is pub(crate): '
+                 'its two branches are compared through a harness twin and the real one only through RecreateWithSkipBest with at most one free vehicle. The '
+                 'concrete lower-bound theorem covers single jobs and the single-layer distance objective; for the cost objective the hypothesis is false in '
+                 'general (finding C15-F1). RegretInsertionEvaluator\'s use of the collected vector is not modelled. The clause "full solver runs remain valid '
+                 'under every parallelism configuration" is exercised by the end-to-end oracle of C01 under several Parallelism layouts (small problems, full '
+                 'validity checker in Coq) and by the layouts / decompose streams of this check (many-tour problems, job accounting and capacity only); '
+                 'Parallelism::new(0, _) makes the solver panic (remainder by zero; theorem C15_zero_pools_panics_refuted, replay notes/C15_zero_pools_replay.json, '
+                 'proposed finding, not generated).')
+MANIFEST_TECHNIQUE = 'Coq proof over all reduction trees, grids and pool counts + vm_compute differential correspondence + multi-pool / multi-layout sampling'
